@@ -1,5 +1,5 @@
 CONSTANT Tier = "thorough"
-CONSTANT Kinds = {"index","store","rock","roll","say"}
+CONSTANT Kinds = {"index","store","rock","roll","say","abin"}
 INIT Init
 NEXT Next
 INVARIANT TotalResult
